@@ -627,6 +627,21 @@ class Builder:
         return [Decl(ty, const, name, init)]
 
     def decl_array(self):
+        self._shadow_probe = None
+        out = self._decl_array()
+        nm = self._shadow_probe
+        self._shadow_probe = None
+        if nm is not None:
+            vs = [v for v in self.visible() if v.name == nm and is_arr(v.ty) and not v.is_global]
+            if vs and vs[0].static_len and vs[0].ty[1] in (INT, BYTE, BOOL):
+                v = vs[0]
+                # the local shadows a global array: read it through literal indices (a lookup by name must find the local)
+                for k_ in sorted({0, v.static_len - 1}):
+                    el_ = Index(Var(nm, t=v.ty), Lit('int', k_, None, t=INT), t=v.ty[1])
+                    out = out + self.probe(Is(el_, INT, t=INT) if v.ty[1] == BYTE else el_)
+        return out
+
+    def _decl_array(self):
         el = self.weighted(self.array_el_types())
         name = self.fresh('a')
         if 'shadow' in self.F and self.cur_func is not None and self.chance(8):
@@ -635,6 +650,7 @@ class Builder:
             cands = [g.name for g in self.globals if is_arr(g.ty) and g.name not in taken and g.name not in getattr(self, 'mutators', {})]
             if cands:
                 name = self.pick(cands)
+                self._shadow_probe = name
         form = self.weighted([(45, 'lit'), (30, 'vla'), (10, 'alias'), (15, 'constlit')])
         if form == 'alias':
             vs = self.vars_of(lambda v: is_arr(v.ty) and v.ty[1] == el)
@@ -1350,6 +1366,16 @@ class Builder:
             # entry tag makes call order (and the chosen overload) observable
             text = tag if tag is not None else '<%s>' % name.lstrip('@!')
             stmts.append(ExprStmt(Call('write', [Lit('string', text.encode(), None, t=STRING)], t=EMPTY)))
+        gnames = {g.name: g for g in self.globals if is_arr(g.ty)}
+        for p_ in params:
+            if is_arr(p_.ty) and p_.name in gnames and p_.ty[1] in (INT, BYTE, BOOL):
+                # an array parameter that shadows a global array: element reads through literal indices must see the argument
+                pv = Var(p_.name, t=p_.ty)
+                for k_ in (0, 1):
+                    el_ = Index(pv, Lit('int', k_, None, t=INT), t=p_.ty[1])
+                    stmts.append(If(Bin('>', Len(pv, t=INT), Lit('int', k_, None, t=INT), t=BOOL),
+                                    Block([ExprStmt(Call('write', [Is(el_, INT, t=INT) if p_.ty[1] == BYTE else el_], t=EMPTY)),
+                                           ExprStmt(Call('write', [Lit('char', 32, None, t=BYTE)], t=EMPTY))]), None))
         if recursive:
             dv = Var('depth', t=INT)
             base = [Return(None if ret == EMPTY else self.coercing(ret, 1))]
